@@ -34,6 +34,9 @@ type lightWriter struct {
 	firedOff    int
 	firedMatch  bool
 	writesAfter int
+	firedRet    int
+	firedErr    string
+	spec        *faultSpec
 }
 
 func (w *lightWriter) accept(p []byte) {
@@ -50,31 +53,29 @@ func (w *lightWriter) Write(p []byte) (int, error) {
 		w.writesAfter++
 	}
 	if w.mode != modeNone && idx >= w.pos {
-		if idx == w.pos {
-			w.fired = true
-			w.firedLen = len(p)
-			w.firedOff = w.off
-			w.firedMatch = w.match
-			switch w.mode {
-			case modePermanent:
-				return 0, errPermanent
-			case modeTransient:
-				return 0, errTransient
-			case modeShortErr:
-				k := len(p) / 2
-				w.accept(p[:k])
-				return k, errShort
-			case modeShortNil:
-				if len(p) == 0 {
-					w.fired = false
-					return 0, nil
-				}
-				k := len(p) / 2
-				w.accept(p[:k])
-				return k, nil
+		if w.spec == nil {
+			sp, ok := specOf(w.mode)
+			if !ok {
+				panic("c20: unknown fault mode " + w.mode)
 			}
-		} else if w.mode == modePermanent {
-			return 0, errPermanent
+			w.spec = &sp
+		}
+		if w.spec.active(w.pos, idx) {
+			ret, take, err, deviates := w.spec.result(len(p))
+			if idx == w.pos {
+				if !deviates {
+					w.accept(p)
+					return len(p), nil
+				}
+				w.fired = true
+				w.firedLen = len(p)
+				w.firedOff = w.off
+				w.firedMatch = w.match
+				w.firedRet = ret
+				w.firedErr = errText(err)
+			}
+			w.accept(p[:take])
+			return ret, err
 		}
 	}
 	w.accept(p)
@@ -142,35 +143,75 @@ func sampledInstances(thorough bool) []sampledInstance {
 	return r
 }
 
+// sampledCountModes: the count modes of the large instances (one unit per
+// instance, a sparse plan per mode: the first and last writes, where the
+// header and trailer writes are, plus a few strided positions).
+func sampledCountModes(thorough bool) []string {
+	if thorough {
+		return joinModes(fullCountModes, countModes, []string{errValueMode(modeFullErr, "io.EOF"), errValueMode(modeTransient, "io.EOF")})
+	}
+	return []string{modeFullErr, modeFullErrPerm, modeFullKeptPerm}
+}
+
+func sampledCountTarget(thorough bool) (edge, target int) {
+	if thorough {
+		return 4, 8
+	}
+	return 3, 3
+}
+
+// sampledModes: every mode the sampled plane injects on an instance.
+func sampledModes(thorough bool) []string {
+	return joinModes(faultModes, sampledCountModes(thorough))
+}
+
 func sampledUnits(c *engine.Ctx) {
 	for ii, in := range sampledInstances(c.Thorough()) {
 		for mi, mode := range faultModes {
 			ii, in, mi, mode := ii, in, mi, mode
 			c.Unit(fmt.Sprintf("sampled/n=%d/%s/%s", in.n, in.fam, mode), func() {
-				sampledPlane(c, in, mode, mi == 0, c.Rand("sampled", ii*8+mi))
+				b := sampledBase(c, in, mi == 0)
+				if b != nil {
+					sampledPlane(c, in, b, mode, 5, in.target, c.Rand("sampled", ii*8+mi))
+				}
 			})
 		}
+		ii, in := ii, in
+		c.Unit(fmt.Sprintf("sampled/n=%d/%s/counts", in.n, in.fam), func() {
+			b := sampledBase(c, in, false)
+			if b == nil {
+				return
+			}
+			edge, target := sampledCountTarget(c.Thorough())
+			for mi, mode := range sampledCountModes(c.Thorough()) {
+				sampledPlane(c, in, b, mode, edge, target, c.Rand("sampled-counts", ii*64+mi))
+			}
+		})
 	}
 }
 
-func sampledPlane(c *engine.Ctx, in sampledInstance, mode string, judgeClean bool, rg *engine.Rng) {
-	n, fam := in.n, in.fam
+func sampledBase(c *engine.Ctx, in sampledInstance, judgeClean bool) *baseRun {
 	c.Obs("sampled_units", 1)
-	b := cleanRun(c, n, fam, 0, fam, !judgeClean)
+	b := cleanRun(c, in.n, in.fam, 0, in.fam, !judgeClean)
 	if b == nil {
 		c.Obs("sampled_units_skipped_after_clean_violation", 1)
-		return
+		return nil
 	}
 	if judgeClean {
-		c.Obs(fmt.Sprintf("sampled(not exhaustive):fault-free output checked n=%d weights=%s", n, fam), 1)
+		c.Obs(fmt.Sprintf("sampled(not exhaustive):fault-free output checked n=%d weights=%s", in.n, in.fam), 1)
 	}
+	return b
+}
+
+func sampledPlane(c *engine.Ctx, in sampledInstance, b *baseRun, mode string, edge, target int, rg *engine.Rng) {
+	n, fam := in.n, in.fam
 	W := len(b.sizes)
 	c.ObsMax("sampled:writes_per_run", W)
-	stride := W / in.target
+	stride := W / target
 	if stride < 1 {
 		stride = 1
 	}
-	pl := samplePlan{First: 5, Last: 5, Stride: stride, Offset: rg.Intn(stride)}
+	pl := samplePlan{First: edge, Last: edge, Stride: stride, Offset: rg.Intn(stride)}
 	positions := pl.positions(W)
 	header := string(b.data[:b.ws])
 	c.Emit(stream, event{K: "sbase", N: n, WF: fam, W: W, Bytes: len(b.data), WS: b.ws, ES: b.es, Header: header, Modes: []string{mode}, Plan: &pl, ErrNil: true})
@@ -199,9 +240,9 @@ func sampledPlane(c *engine.Ctx, in sampledInstance, mode string, judgeClean boo
 		var err error
 		pi := c.Call(fmt.Sprintf("LIB|n=%d,w=%s|%s@%d", n, fam, mode, p), func() { err = tsp.LIB(w, n, wf) })
 		ev := event{K: "sfault", N: n, WF: fam, W: W, Fault: &faultDesc{Pos: p, Mode: mode, Len: l, Sect: sect, Off: off},
-			Fired: w.fired, NW: w.calls, Got: w.off, ErrNil: err == nil}
+			Fired: w.fired, NW: w.calls, Got: w.off, ErrNil: err == nil, Ret: w.firedRet, RetErr: w.firedErr, FLen: w.firedLen}
 		if err != nil {
-			ev.Err = err.Error()
+			ev.Err = errText(err)
 		}
 		if pi != nil {
 			ev.Panic = pi.String()
@@ -213,6 +254,9 @@ func sampledPlane(c *engine.Ctx, in sampledInstance, mode string, judgeClean boo
 		c.Emit(stream, ev)
 		c.Obs("sampled:fault_runs:"+mode, 1)
 		c.Obs("sampled:section:"+sect, 1)
+		if w.fired {
+			obsCovered(c.Obs, "sampled:returned:"+retClass(w.firedRet, w.firedLen, w.firedErr)+":covering:", sect)
+		}
 		if coversWeights(sect) {
 			c.NTDistinct(1)
 		}
@@ -220,22 +264,26 @@ func sampledPlane(c *engine.Ctx, in sampledInstance, mode string, judgeClean boo
 			return caseDetail{N: n, Weights: fam, Matrix: matrixRows(fam, n, 0), Fault: mode, Pos: p, W: W, Sect: sect,
 				Note: fmt.Sprintf("write %d of %d (row %d) carries %q in the fault-free run; %d of %d bytes were accepted in the injected run", p, W, row, clip(string(b.data[off:off+l]), 60), w.off, len(b.data))}
 		}
+		if pi != nil && brokenCount(mode) {
+			c.Obs("sampled:"+mode+":LIB_panicked(count outside 0..len(p), not judged):at="+sect, 1)
+			continue
+		}
 		if pi != nil {
 			c.Violation("LIB|panic-on-write-failure|"+engine.SiteNoLine(pi.Site)+"|"+mode+"|at="+loc, det(), pi.String(), "a non-nil error")
 			continue
 		}
 		if !w.fired {
-			if mode != modeShortNil {
+			if !nilErrorMode(mode) {
 				c.Obs("fault_not_reached", 1)
 			}
 			continue
 		}
-		if mode == modeShortNil {
+		if !judgedMode(mode) {
 			res := "nil"
 			if err != nil {
 				res = "error"
 			}
-			c.Obs("sampled:short-nil-error:LIB_returned_"+res+":at="+sect, 1)
+			c.Obs("sampled:"+mode+":LIB_returned_"+res+":at="+sect, 1)
 			continue
 		}
 		if err == nil {
@@ -304,7 +352,7 @@ func sampledFinish(s *engine.Super, sbases, sfaults []event) int64 {
 			continue
 		}
 		if !ev.Fired {
-			if ev.Fault.Mode != modeShortNil {
+			if !nilErrorMode(ev.Fault.Mode) {
 				s.AddObs("offline:fault_not_reached", 1)
 			}
 			continue
@@ -312,8 +360,11 @@ func sampledFinish(s *engine.Super, sbases, sfaults []event) int64 {
 		if !ev.PrefixOK {
 			s.AddObs("offline:prefix_differs_from_fault_free_run", 1)
 		}
+		if !checkRet(s, ev) {
+			return judged
+		}
 		if !judgedMode(ev.Fault.Mode) {
-			s.AddObs("offline:sampled:records_not_judged(short count with nil error)", 1)
+			s.AddObs(notJudgedObs("offline:sampled:", ev.Fault.Mode), 1)
 			continue
 		}
 		judged++
@@ -331,7 +382,7 @@ func sampledFinish(s *engine.Super, sbases, sfaults []event) int64 {
 	allOK := true
 	for _, in := range sampledInstances(s.Thorough()) {
 		bi := bases[baseID(in.n, in.fam, 0)]
-		for _, m := range faultModes {
+		for _, m := range sampledModes(s.Thorough()) {
 			var mi *modeInfo
 			if bi != nil {
 				mi = bi.modes[m]
@@ -362,7 +413,7 @@ func init() {
 		for _, ch := range chunks {
 			ref = append(ref, ch...)
 		}
-		for _, mode := range append([]string{modeNone}, faultModes...) {
+		for _, mode := range append([]string{modeNone}, allInProcessModes()...) {
 			for p := 0; p < len(chunks); p++ {
 				a := &recWriter{pos: p, mode: mode}
 				b := &lightWriter{ref: ref, pos: p, mode: mode, match: true}
